@@ -509,7 +509,36 @@ func (e *Engine) Run(tier string) {
 		}
 	}
 	SetConfig(4, 2, 3)
-	e.Rep.Bound = strings.Join(bounds, " // ") + fmt.Sprintf("; each configuration partitioned into %d classes by the kinds of the warriors added (each class searched to closure separately; states shared between classes are counted once per class; under the second configuration a third warrior is always the imp)", n)
+	// directed histories with many warriors (every prefix is checked like a
+	// searched state): N adds, every warrior spawned, two cycles, Reset, two
+	// respawns, a cycle and Run
+	for ni, N := range []int{4, 5, 7, 8, 9, 10, 16, 17, 32, 33, 64, 65, 300} {
+		if !e.Sh.Mine(ni) {
+			continue
+		}
+		var h []Op
+		for i := 0; i < N; i++ {
+			h = append(h, Op{Kind: "add", A: []int{0, 2, 1}[i%3]})
+		}
+		for i := 0; i < N; i++ {
+			h = append(h, Op{Kind: "spawn", A: i, Off: uint64(i) % (2 * M)})
+		}
+		h = append(h, Op{Kind: "cycle"}, Op{Kind: "cycle"}, Op{Kind: "reset"}, Op{Kind: "spawn", A: 0, Off: 0}, Op{Kind: "spawn", A: N - 1, Off: 1}, Op{Kind: "cycle"}, Op{Kind: "run"})
+		from := 1
+		if N > 40 {
+			from = N // the long histories: prefixes from the last add on
+		}
+		for i := from; i <= len(h); i++ {
+			im, md, ok := e.build(h[:i], true)
+			if !ok {
+				break
+			}
+			e.compare(h[:i], im, md)
+			e.Rep.States++
+		}
+		e.Rep.Count("c13:many-warrior-histories")
+	}
+	e.Rep.Bound = strings.Join(bounds, " // ") + fmt.Sprintf("; each configuration partitioned into %d classes by the kinds of the warriors added (each class searched to closure separately; states shared between classes are counted once per class; under the second configuration a third warrior is always the imp); directed histories with 4..65 and 300 warriors (adds, spawns, two cycles, Reset, respawns, cycle, Run), every prefix checked", n)
 }
 
 func (e *Engine) search(tier string) {
